@@ -86,6 +86,9 @@ def showOut : Out → String
 def lineStep (s : WL) (line : String) : WL × String :=
   match words line with
   | ["reset"] => ({}, "ok")
+  -- observation only: the items present, top of the stack first (used by the C11 check, which replays the
+  -- push/remove/pop/bool trace of the walker's real worklist and compares the contents after every step)
+  | ["abs"] => (s, " ".intercalate ("items" :: (abs s).map toString))
   | ws => match parseOp ws with
     | some o => let (s', out) := step s o; (s', showOut out)
     | none => (s, "bad-op")
